@@ -414,6 +414,8 @@ class Interp:
             return k.literal()
         if isinstance(k, (int, str)):
             return k
+        if isinstance(k, AOpaque) and k.what.replace('.', '').replace('_', '').isalnum() and '.' in k.what:
+            return k.what           # an enum member named in the source (PhysicalQuantities.ANGLE): a name is its own key
         raise Unknown(f"dictionary key is abstract at line {getattr(node, 'lineno', 0)}")
 
     def iterate(self, it, node):
@@ -751,6 +753,14 @@ class Interp:
                 return isinstance(op, ast.Eq)
             # a provenance vector with constant high bits can sometimes be decided; otherwise unknown
             raise Unknown(f"comparison of abstract ints {a!r} {type(op).__name__} {b!r} at line {getattr(node, 'lineno', 0)}")
+        if isinstance(a, AOpaque) and isinstance(b, AOpaque) and isinstance(op, (ast.Eq, ast.NotEq, ast.Is, ast.IsNot)) and '.' in a.what and '.' in b.what \
+                and a.what.split('.')[0] == b.what.split('.')[0] and '(' not in a.what + b.what and '[' not in a.what + b.what:
+            r = a.what == b.what          # two members of the same enumeration, named in the source
+            return r if isinstance(op, (ast.Eq, ast.Is)) else not r
+        def enum_member(x):
+            return isinstance(x, AOpaque) and '.' in x.what and '(' not in x.what and '[' not in x.what and x.what.split('.')[0][:1].isupper()
+        if isinstance(op, (ast.Eq, ast.NotEq)) and ((enum_member(a) and (b is None or isinstance(b, (AStr, AInt)))) or (enum_member(b) and (a is None or isinstance(a, (AStr, AInt))))):
+            return isinstance(op, ast.NotEq)      # a member of an enumeration is equal neither to None nor to a plain string / number
         def conc(x):
             if isinstance(x, AInt) and x.v is not None:
                 return x.v
@@ -1087,6 +1097,16 @@ class Interp:
                 return out_
             if n == 'dict' and not args and not kw:
                 return ADict({})
+            if n == 'dict' and len(args) == 1 and not kw:
+                if isinstance(args[0], ADict):
+                    return ADict(dict(args[0].items))
+                out_ = {}
+                for pair in self.iterate(args[0], e):
+                    pr = pair.items if isinstance(pair, AList) else pair
+                    if not isinstance(pr, (tuple, list)) or len(pr) != 2:
+                        raise Unknown(f"dict() of non-pairs at line {e.lineno}")
+                    out_[self.key_of(pr[0], e)] = pr[1]
+                return ADict(out_)
             if n == 'bool' and len(args) == 1:
                 return self.truth(args[0], e)
             if n == 'list':
